@@ -46,6 +46,7 @@ fn main() {
         "C16" => props::c16::run(&mut ctx),
         "C18" => props::c18::run(&mut ctx),
         "C13" => props::c13::run(&mut ctx),
+        "C14" => props::c14::run(&mut ctx),
         "C15" => props::c15::run(&mut ctx),
         "debug-c01" => {
             // dumps the output WAT of one C01 case: worker debug-c01 --case K [--seed S]
